@@ -14,7 +14,7 @@ RULE = ("EXHAUSTIVE: every else-chain of 1..3 links (thorough: ..4) over {if, un
         "every assignment of condition values from a set with each truthiness class (false, null, missing, 0, '', [], {}, "
         "true, 1, 'x', [0], {k:0}, -0.0, 5e-324, 1.5); every link kind x truthiness class under condition keys that begin like a literal and "
         "continue with another symbol character (true-color, null:obj, 2-factor, 1a ...), at the block head and in an else link; plus random nested chains (depth ≤ 4) in every scope kind from the "
-        "AST generator; each branch writes a distinct marker; oracle = reference renderer (first link whose condition holds, "
+        "AST generator; each branch writes a distinct marker; the family of the Lean theorems C06.if_block_renders_by_truthiness / if_else_block_renders_one_branch (any text, the block, any text; every truthiness class; oracle = the theorems' closed form, exact); oracle = reference renderer (first link whose condition holds, "
         "else the final else, else nothing); includeZero variants; non-trivial = some branch rendered; distinct by "
         "(chain shape, values)")
 DEFINITE_FLOOR = 0.8
@@ -106,6 +106,22 @@ def generate(rng, n, tier="quick"):
                         case["id"] = "%s-k%06d" % (ID, i)
                         i += 1
                         out.append((case, {"mode": "lookalike", "oracle": list(ref_outcome({"main": ast}, "main", data)), "shape": [K, vn, kind, has_else, pos]}))
+    # the family of the Lean theorems C06.if_block_renders_by_truthiness / if_else_block_renders_one_branch:
+    # L ++ {{#if v}}A{{/if}} ++ R  and  L ++ {{#if v}}A{{else}}B{{/if}} ++ R  for any text L that may stand before a tag, any text R
+    # without '{{' (line breaks and blanks next to the block tags included: neither tag is alone on its line) and every
+    # truthiness class; the expectation is the theorems' closed form  L ++ (A | B | nothing) ++ R
+    from .C03 import thm_left, thm_right
+    for k in range(200 if tier != "thorough" else 2000):
+        r = rng.fork("thm%d" % k)
+        L, R = thm_left(r), thm_right(r)
+        vn, vv = r.pick([v for v in VALUES if v[0] != "missing"])
+        has_else = r.chance(0.5)
+        src = L + ("{{#if v}}A{{else}}B{{/if}}" if has_else else "{{#if v}}A{{/if}}") + R
+        t = ref.truthy(vv, False)
+        exp = L + ("A" if t else ("B" if has_else else "")) + R
+        case = session({}, [], {"api": "render_template", "src": src}, {"v": vv})
+        case["id"] = "%s-thm%04d" % (ID, k)
+        out.append((case, {"mode": "thm", "oracle": ["must", exp], "shape": [vn, has_else, L, R]}))
     # random nested part
     j = 0
     target = len(out) + n
